@@ -1,4 +1,5 @@
 import HLV.Model.Check
+import HLV.Model.CheckOwn
 open HLV
 
 /-- `model`: case lines on stdin → model transcripts.
@@ -25,8 +26,17 @@ partial def checkLoop (prop : String) (h : IO.FS.Stream) : IO Unit := do
   | _, _ => IO.println s!"fail ? unparsable pair: {l1.trimAscii.toString} // {l2.trimAscii.toString}"
   checkLoop prop h
 
+partial def dropsLoop (h : IO.FS.Stream) : IO Unit := do
+  let l ← h.getLine
+  if l.isEmpty then return ()
+  match HLV.Own.checkDropsLine l.trimAscii.toString with
+  | none => IO.println "ok"
+  | some why => IO.println s!"fail {why}"
+  dropsLoop h
+
 def main (args : List String) : IO Unit := do
   let stdin ← IO.getStdin
   match args with
+  | ["drops"] => dropsLoop stdin
   | ["check", prop] => checkLoop prop stdin
   | _ => modelLoop stdin
